@@ -514,6 +514,14 @@ func rulePanicInventory(c *Ctx, rule string, roots []*ssa.Function, pkgs []strin
 				ob.Exc("trusted (frozen table): " + why)
 				return
 			}
+			if why, ok := trusted["msg:"+msg]; ok && msg != "" {
+				ob.Exc("trusted (frozen table, keyed by the panic message " + msg + "): " + why)
+				return
+			}
+			if src := osErrorSource(p.X); src != "" {
+				ob.Exc("trusted: panics with the error returned by " + src + " - an operating-system / I-O failure, outside the property's quantifier (programs x contents)")
+				return
+			}
 			for _, sp := range special {
 				if f, ok := sp[name]; ok {
 					if okd, why := f(); okd {
@@ -801,4 +809,47 @@ func ruleErrorsPrintable(c *Ctx, rule string) {
 		ob.Check(len(bad) == 0, fmt.Sprintf("%d call sites, none passes a nil constant (Error() dereferences the token)", n), "nil token passed at "+strings.Join(bad, ", ")+": printing the error panics")
 		ob.Nontrivial = true
 	}
+}
+
+// osErrorSource: the panic value is an error obtained from a call into os / io / bufio (directly or through an io-style interface
+// method); returns a description of that call, or "".
+func osErrorSource(v ssa.Value) string {
+	seen := map[ssa.Value]bool{}
+	var walk func(v ssa.Value) string
+	walk = func(v ssa.Value) string {
+		if v == nil || seen[v] {
+			return ""
+		}
+		seen[v] = true
+		switch x := v.(type) {
+		case *ssa.MakeInterface:
+			return walk(x.X)
+		case *ssa.ChangeInterface:
+			return walk(x.X)
+		case *ssa.Phi:
+			for _, e := range x.Edges {
+				if s := walk(e); s != "" {
+					return s
+				}
+			}
+		case *ssa.Extract:
+			return walk(x.Tuple)
+		case *ssa.Call:
+			if x.Call.IsInvoke() {
+				switch x.Call.Method.Name() {
+				case "Read", "Write", "Seek", "Close", "ReadAt", "WriteAt":
+					return "the " + x.Call.Method.Name() + " method of an I/O interface"
+				}
+				return ""
+			}
+			if sc := x.Call.StaticCallee(); sc != nil && sc.Pkg != nil {
+				switch sc.Pkg.Pkg.Path() {
+				case "os", "io", "bufio", "io/fs":
+					return sc.Pkg.Pkg.Path() + "." + sc.Name()
+				}
+			}
+		}
+		return ""
+	}
+	return walk(v)
 }
